@@ -61,7 +61,7 @@ class Site:
 
     @property
     def key(self):
-        b = self.body.nname
+        b = getattr(self.body, "alias_of", None) or self.body.nname
         # a closure of a helper that was spliced into exactly one known function is keyed as a closure of that function
         body = self.body
         prog = body.prog
